@@ -141,10 +141,10 @@ UKINDS = ['identity', 'swap', 'rotation', 'phases', 'complex']
 
 
 def _gauge_cases(tier):
-    for L in ([4, 5, 6] if tier == 'quick' else [4, 5, 6, 7]):
+    for L in [4, 5, 6, 7, 8]:
         for i in range(L - 1):
-            for uk in UKINDS:
-                for ck in ('real', 'complex'):
+            for uk in (UKINDS if (L <= 6 or tier != 'quick') else ['phases', 'complex']):
+                for ck in (('real', 'complex') if (L <= 6 or tier != 'quick') else ('complex',)):
                     yield ['gauge', L, i, uk, ck]
 
 
@@ -192,5 +192,5 @@ def spaces(tier, seed):
         Space('onehot_coefficients', core.chunked(_onehot_cases(tier), 40), run_case=run_case, sig=sig,
               bounds={'what': 'every t=e_ij for all L above; every v=e_ijkl for spinless L<=5(6), spin L<=3(4)'}),
         Space('gauge_transform', core.chunked(_gauge_cases(tier), 4), run_case=run_gauge_case, sig=sig,
-              bounds={'L': [4, 5, 6] if tier == 'quick' else [4, 5, 6, 7], 'i': 'every pair', 'unitaries': UKINDS, 'coefficients': ['real', 'complex']}),
+              bounds={'L': [4, 5, 6, 7, 8], 'i': 'every pair', 'unitaries': UKINDS, 'coefficients': ['real', 'complex'], 'note': 'quick: L=7,8 only with the non-real unitaries and complex coefficients'}),
     ]
